@@ -83,7 +83,16 @@ pub fn decode(s: &mut Choices) -> Case {
         }
         6 => {
             let n = s.below(80);
-            Case::Str((0..n).map(|_| (0x20 + s.below(0x5f) as u8) as char).collect())
+            // any Rust string: the two impls must agree on it, valid AML text or not
+            let odd = ['\0', '\n', '\t', ' ', '\u{7f}', '\u{e9}', '\u{130}', '\u{1f600}', '"', '\\'];
+            let mut t: String = (0..n).map(|_| if s.below(12) == 0 { odd[s.below(odd.len() as u32) as usize] } else { (0x20 + s.below(0x5f) as u8) as char }).collect();
+            match s.below(8) {
+                0 => t.push('\0'),
+                1 => t.insert(0, '\0'),
+                2 => t.push(' '),
+                _ => {}
+            }
+            Case::Str(t)
         }
         _ => Case::Int(s.u64()),
     }
@@ -127,6 +136,9 @@ pub fn run(ctx: &Ctx) {
     }
     for v in super::c08::special_values() {
         cases.push(Case::Int(v));
+    }
+    for t in ["", "\0", "a\0", "\0a", "a\0b", "a\0\0", " a ", "a ", "\n", "\u{e9}", "abc\u{130}", "\u{7f}", "ABCD", "A long string with spaces, punctuation; and \"quotes\"."] {
+        cases.push(Case::Str(t.to_string()));
     }
     let n = cases.len() as u64;
     let res: Vec<(usize, Vec<Violation>)> = cases.par_iter().enumerate().map(|(i, c)| (i, guarded("C15", &oracle, c))).filter(|(_, v)| !v.is_empty()).collect();
